@@ -100,7 +100,7 @@ func c17sBit(b bool) string {
 }
 
 func TestVerifC17(t *testing.T) {
-	rep := vfNewReport("C17", "store level: live single-node store; Store.Query and Store.Request at levels none/weak/linearizable/strong with 1-3 texts of 1-3 statements in ONE text (reads incl. EXPLAIN/PRAGMA/CTE/comments, writes, TEMP tables, empty texts); table content read before/after; non-trivial = a query-endpoint request containing a write, or a unified request with a text classified read-only that has a writing tail; distinct by op line")
+	rep := vfNewReport("C17", "store level: live single-node store (then a second node joins and the follower serves reads at level none); Store.Query and Store.Request at levels none/weak/linearizable/strong with 1-3 texts of 1-3 statements in ONE text (reads incl. EXPLAIN/PRAGMA/CTE/comments, writes, TEMP tables, empty texts); table content read before/after; non-trivial = a query-endpoint request containing a write, or a unified request with a text classified read-only that has a writing tail; distinct by op line")
 	defer rep.Write()
 	r := vfNewRng(1717)
 
@@ -317,6 +317,74 @@ func TestVerifC17(t *testing.T) {
 		gops = append(gops, fmt.Sprintf("gquery %s r,a%d", lv, 700000+attachN))
 		gimpl = append(gimpl, after+" "+we)
 	}
+	// ---- a FOLLOWER serving reads: join a second node; generated texts (writes in them, multi-statement,
+	// the ATTACH route) at level none on the follower's query endpoint and on its unified endpoint's
+	// read-only path; weak/strong on a follower are refused; BOTH nodes' tables must stay as they are
+	func() {
+		f, lnf := mustNewStore(t)
+		defer lnf.Close()
+		if err := f.Open(); err != nil {
+			t.Fatalf("follower open: %v", err)
+		}
+		defer f.Close(true)
+		if err := s.Join(joinRequest(f.ID(), f.Addr(), true)); err != nil {
+			t.Fatalf("join: %v", err)
+		}
+		if _, err := f.WaitForLeader(20 * time.Second); err != nil {
+			t.Fatalf("follower leader wait: %v", err)
+		}
+		deadline := time.Now().Add(30 * time.Second)
+		for s.DBAppliedIndex() != f.DBAppliedIndex() || c17sContent(f) != c17sContent(s) {
+			if time.Now().After(deadline) {
+				t.Fatalf("follower did not catch up")
+			}
+			time.Sleep(100 * time.Millisecond)
+		}
+		for i := 0; i < vfScale(40, 800); i++ {
+			var texts []string
+			for k := 1 + r.Intn(3); k > 0; k-- {
+				texts = append(texts, c17sGenText(r, &next))
+			}
+			var sqls []string
+			for j, tx := range texts {
+				sqls = append(sqls, c17sSQL(tx, i*3+j))
+			}
+			if i%5 == 4 { // the ATTACH route against the follower's own file
+				sqls = []string{fmt.Sprintf("ATTACH DATABASE '%s' AS fw%d", f.dbPath, i), fmt.Sprintf("INSERT INTO fw%d.t(v) VALUES('k%d')", i, 800000+i)}
+			}
+			lv := []string{"none", "none", "weak", "strong"}[r.Intn(4)]
+			endpoint := []string{"query", "request"}[r.Intn(2)]
+			beforeL, beforeF := c17sContent(s), c17sContent(f)
+			ctx, cancel := context.WithTimeout(context.Background(), 30*time.Second)
+			var err error
+			hasRW := false
+			if endpoint == "query" {
+				qr := queryRequestFromStrings(sqls, false, false, false)
+				qr.Level = c17sLevels[lv]
+				_, _, _, err = f.Query(ctx, qr)
+			} else {
+				eqr := executeQueryRequestFromStrings(sqls, c17sLevels[lv], false, false, false)
+				nRW, _ := f.RORWCount(eqr)
+				hasRW = nRW > 0
+				_, _, _, err = f.Request(ctx, eqr)
+			}
+			cancel()
+			rep.Count("follower:" + endpoint + ":" + lv)
+			rep.Case(fmt.Sprintf("follower %s %s %q", endpoint, lv, sqls), true)
+			if (lv != "none" || hasRW) && err == nil {
+				rep.Fail("follower-served-leader-only-request:"+endpoint+":"+lv, fmt.Sprintf("follower accepted %s at level %s: %q", endpoint, lv, sqls), map[string]interface{}{"sql": sqls, "level": lv})
+			}
+			if i%5 == 4 {
+				fq := queryRequestFromStrings([]string{fmt.Sprintf("DETACH DATABASE fw%d", i)}, false, false, false)
+				f.Query(context.Background(), fq)
+			}
+			time.Sleep(5 * time.Millisecond)
+			if aL, aF := c17sContent(s), c17sContent(f); aL != beforeL || aF != beforeF {
+				rep.Fail("follower-read-changed-database:"+endpoint+":"+lv, fmt.Sprintf("%s at level %s on a follower with %q: leader table %s -> %s, follower table %s -> %s", endpoint, lv, sqls, beforeL, aL, beforeF, aF),
+					map[string]interface{}{"sql": sqls, "level": lv, "endpoint": endpoint})
+			}
+		}
+	}()
 	rep.vfCompare("routing", ops, impl, nil)
 	// the guarded path continues from the same database content
 	rep.vfCompare("routing", append(append([]string{}, ops...), gops...), append(append([]string{}, impl...), gimpl...), nil)
